@@ -1,7 +1,7 @@
 (* C10 - Applying a form substitutes simultaneously and nothing else.
    Property theorems only: each is closed by [exact] of a lemma of Proofs/CallP.v and followed by
    Print Assumptions.  Model: Model/CallM.v ([subst_sim] = expr._xreplace, [call] = __call__ with
-   _update_free_variables, [is_symmetric] = BilinearForm.is_symmetric); [interp] is an arbitrary
+   _free_variables_subs (after the repairs 8f04492 / 8cb0139; [call_before_fix] = the code before them), [is_symmetric] = BilinearForm.is_symmetric); [interp] is an arbitrary
    interpretation of operator nodes / Add / Mul / Pow / integrals, [rho] an arbitrary environment. *)
 From Coq Require Import String ZArith List Bool Arith Permutation.
 From V Require Import Core.Terminal Core.DField Model.CallM Proofs.CallP.
@@ -98,8 +98,8 @@ Proof. exact positional_replaces. Qed.
 Print Assumptions C10_all_arguments_replaced.
 
 (* arguments that mention each other, a(u + v, u) *)
-Theorem C10_arguments_mentioning_each_other : forall (I : interp) rho a tr te,
-  f_kind a = Bilinear ->
+Theorem C10_arguments_mentioning_each_other : forall (I : interp) rho a u v tr te,
+  f_kind a = Bilinear -> f_trials a = [u] -> f_tests a = [v] ->
   exists b, call a [PVal tr; PVal te] [] = Ok b /\
             sem_body I rho b = sem_body I (upd I rho (combine (vars a) [tr; te])) (f_body a).
 Proof. exact call_mentions_each_other. Qed.
@@ -123,41 +123,60 @@ Theorem C10_keyword_never_names_argument : forall a n x,
 Proof. exact kw_never_names_argument. Qed.
 Print Assumptions C10_keyword_never_names_argument.
 
-(* Full statement "a call is ONE simultaneous substitution of keywords and arguments": false of the
-   code (and of its faithful model), which substitutes keyword after keyword and then the arguments. *)
-Theorem C10_call_simultaneous_refuted : exists a pos kw, call a pos kw <> call_sim a pos kw.
-Proof. exact call_simultaneous_refuted. Qed.
-Print Assumptions C10_call_simultaneous_refuted.
+(* FULL statement: a successful call is ONE simultaneous substitution of keywords and arguments together,
+   with exactly one value per declared argument; its meaning is the form's meaning in the environment where
+   every replaced symbol has the value of its replacement in the caller's environment *)
+Theorem C10_call_simultaneous : forall a pos kw b,
+  call a pos kw = Ok b ->
+  exists vals d, values_of a pos = Some vals /\ kw_dict (free_vars a) kw = Some d /\
+                 length vals = length (vars a) /\
+                 b = map_body (subst_sim (d ++ combine (vars a) vals)) (f_body a) /\
+                 forall (I : interp) rho,
+                   sem_body I rho b = sem_body I (upd I rho (d ++ combine (vars a) vals)) (f_body a).
+Proof. exact call_simultaneous. Qed.
+Print Assumptions C10_call_simultaneous.
 
-(* witnesses, replayed on the real code by the check:  l(w, f=v)  and  a(u, v, c=k, k=c) *)
-Theorem C10_keyword_then_arguments_witness :
-  call wit_lin [PVal (ELeaf ww)] [("f", ELeaf wv)] = Ok [("dom:Omega", EMul [ELeaf ww; ELeaf ww])] /\
-  call_sim wit_lin [PVal (ELeaf ww)] [("f", ELeaf wv)] = Ok [("dom:Omega", EMul [ELeaf wv; ELeaf ww])].
-Proof. exact call_kw_then_args_refuted. Qed.
-Print Assumptions C10_keyword_then_arguments_witness.
+(* FULL arity statements: a wrong number of values is refused; after a successful call no declared
+   argument survives except inside a supplied value *)
+Theorem C10_wrong_count_refused : forall a pos kw vals d,
+  values_of a pos = Some vals -> kw_dict (free_vars a) kw = Some d -> count_ok a pos = false ->
+  call a pos kw = Err ErrCount.
+Proof. exact call_wrong_count. Qed.
+Print Assumptions C10_wrong_count_refused.
 
-Theorem C10_keyword_swap_witness :
-  call wit_bil [PVal (ELeaf wu); PVal (ELeaf wv)] [("c", ELeaf wk); ("k", ELeaf wc)]
+Theorem C10_no_argument_survives : forall a pos kw b l,
+  call a pos kw = Ok b -> In l (vars a) -> In l (body_leaves b) ->
+  exists vals d k v, values_of a pos = Some vals /\ kw_dict (free_vars a) kw = Some d /\
+                     lookup (d ++ combine (vars a) vals) k = Some v /\ In l (leaves v).
+Proof. exact call_no_argument_survives. Qed.
+Print Assumptions C10_no_argument_survives.
+
+(* historical: the code before the repairs substituted keyword after keyword and then the arguments, and did
+   not count the values.  Witnesses  l(w, f=v),  a(u, v, c=k, k=c),  a((), w)  (known_findings: fixed) *)
+Theorem C10_call_before_fix_not_simultaneous : exists a pos kw, call_before_fix a pos kw <> call a pos kw.
+Proof. exact call_before_fix_not_simultaneous. Qed.
+Print Assumptions C10_call_before_fix_not_simultaneous.
+
+Theorem C10_keyword_then_arguments_before_fix :
+  call_before_fix wit_lin [PVal (ELeaf ww)] [("f", ELeaf wv)] = Ok [("dom:Omega", EMul [ELeaf ww; ELeaf ww])] /\
+  call wit_lin [PVal (ELeaf ww)] [("f", ELeaf wv)] = Ok [("dom:Omega", EMul [ELeaf wv; ELeaf ww])].
+Proof. exact call_kw_then_args_before_fix. Qed.
+Print Assumptions C10_keyword_then_arguments_before_fix.
+
+Theorem C10_keyword_swap_before_fix :
+  call_before_fix wit_bil [PVal (ELeaf wu); PVal (ELeaf wv)] [("c", ELeaf wk); ("k", ELeaf wc)]
     = Ok [("dom:Omega", EMul [ELeaf wc; ELeaf wu; ELeaf wv]); ("bnd:Omega:G:0:1", EMul [ELeaf wc; ELeaf wu; ELeaf wv])] /\
-  call_sim wit_bil [PVal (ELeaf wu); PVal (ELeaf wv)] [("c", ELeaf wk); ("k", ELeaf wc)]
+  call wit_bil [PVal (ELeaf wu); PVal (ELeaf wv)] [("c", ELeaf wk); ("k", ELeaf wc)]
     = Ok [("dom:Omega", EMul [ELeaf wk; ELeaf wu; ELeaf wv]); ("bnd:Omega:G:0:1", EMul [ELeaf wc; ELeaf wu; ELeaf wv])].
-Proof. exact call_kw_swap_refuted. Qed.
-Print Assumptions C10_keyword_swap_witness.
+Proof. exact call_kw_swap_before_fix. Qed.
+Print Assumptions C10_keyword_swap_before_fix.
 
-(* proved with the minimal guard: no keyword value mentions a key substituted later, no key twice *)
-Theorem C10_call_simultaneous_partial : forall a pos kw vals d,
-  values_of a pos = Some vals -> kw_dict (free_vars a) kw = Some d ->
-  cleanb d (combine (vars a) vals) = true ->
-  call a pos kw = call_sim a pos kw.
-Proof. exact call_simultaneous_partial. Qed.
-Print Assumptions C10_call_simultaneous_partial.
-
-(* the number of values is not checked (zip stops at the shorter list) *)
-Theorem C10_arity_refuted :
-  exists a pos b l, call a pos [] = Ok b /\ In l (vars a) /\ In l (body_leaves b) /\
+Theorem C10_arity_before_fix :
+  call wit_bil [PSeq []; PVal (ELeaf ww)] [] = Err ErrCount /\
+  exists a pos b l, call_before_fix a pos [] = Ok b /\ In l (vars a) /\ In l (body_leaves b) /\
                     ~ In l (flat_map leaves (flat_map as_list pos)).
-Proof. exact call_arity_refuted. Qed.
-Print Assumptions C10_arity_refuted.
+Proof. exact call_arity_before_fix. Qed.
+Print Assumptions C10_arity_before_fix.
 
 (* --- the symmetry flag ---------------------------------------------------------------------- *)
 Theorem C10_symmetry_flag_sound : forall (I : interp) a,
@@ -204,17 +223,15 @@ Example C10_nonvacuous_flag :
     <> sem_body Zinterp zrho (f_body nonsym_form).
 Proof. split; [exact sym_form_flag|]. split; [exact nonsym_form_flag|exact nonsym_form_changes]. Qed.
 
-(* the guard of the partial theorem is satisfiable with keywords present: a(w, z, f=g, c=3) *)
-Example C10_nonvacuous_partial :
+(* the full theorems are not vacuous: a(w, z, f=g, c=3) succeeds, a((w, z), v) is refused *)
+Example C10_nonvacuous_call :
   let a := mkForm Bilinear [wu] [wv]
              [("dom:Omega", EMul [ELeaf wc; ELeaf wf; EOp "Dot" [EOp "Grad" [ELeaf wu]; EOp "Grad" [ELeaf wv]]])] in
-  let pos := [PVal (ELeaf ww); PVal (ELeaf (LFun false "z"))] in
-  let kw := [("f", ELeaf (LFun false "g")); ("c", ELeaf (LNum 3 1))] in
-  exists vals d, values_of a pos = Some vals /\ kw_dict (free_vars a) kw = Some d /\
-                 cleanb d (combine (vars a) vals) = true /\
-                 call a pos kw = Ok [("dom:Omega", EMul [ELeaf (LNum 3 1); ELeaf (LFun false "g");
-                    EOp "Dot" [EOp "Grad" [ELeaf ww]; EOp "Grad" [ELeaf (LFun false "z")]]])].
-Proof. simpl. eexists. eexists. repeat split; reflexivity. Qed.
+  call a [PVal (ELeaf ww); PVal (ELeaf (LFun false "z"))] [("f", ELeaf (LFun false "g")); ("c", ELeaf (LNum 3 1))]
+    = Ok [("dom:Omega", EMul [ELeaf (LNum 3 1); ELeaf (LFun false "g");
+                              EOp "Dot" [EOp "Grad" [ELeaf ww]; EOp "Grad" [ELeaf (LFun false "z")]]])] /\
+  call a [PSeq [ELeaf ww; ELeaf (LFun false "z")]; PVal (ELeaf wv)] [] = Err ErrCount.
+Proof. split; reflexivity. Qed.
 
 (* mention-each-other on a concrete tree: a(u + v, u) for the integrand u*dx1(v) *)
 Example C10_mention_example :
